@@ -15,7 +15,7 @@ ID = "C04"
 MANIFEST = {
     "category": "exploration",
     "text": "Generated-input search: valid expressions over requirement-constraint, hint and format-constraint keys (n-ary U/O/X nodes, juxtaposition attaching one format constraint to a hint or to an rc-carrying operand on either side, all spellings/whitespace/brackets) times all 3^k assignments for k<=4 keys (12 sampled ones incl. all-UNKNOWN beyond). A recursive reference evaluator over the AST with its own Kleene+NEUTRAL tables predicts the state; it is compared through evaluate_requirement_constraint_tree and through requirement_constraint_evaluation (string and already parsed tree; fulfilled/is_conditional mapping); one parsed tree is re-used for all assignments (parse once, evaluate often), so an evaluator that consumes or rewrites its input shows up as a wrong outcome under a later assignment. Any exception on an in-domain case is a violation. One slice is enumerated completely: every valid expression with up to 3 (thorough: 4) atoms over the keys [1], [2], [501], [901], [902] (1 335 / 35 356 expressions) under all assignments. For the first assignments of every expression the evaluation is repeated on a method-based RcEvaluator (with a decoy evaluator set of another format registered) and on the shipped ContentEvaluationResult based evaluators whose evaluatable data spell the states in mixed case. Stage many-keys (enumerated, by construction): right-nested expressions over 40-300 (thorough: -350) distinct requirement constraint keys, expected outcome by an iterative fold of the four-valued operators. For the first assignment of small expressions the evaluation is also done right after is_valid_expression in the same task (context-local data).",
-    "note": "Trusted: reference evaluator and tables in vlib/ref.py (C03 ties the real tables to the same laws exhaustively; C01 ties Lark's grouping to the AST), generator in vlib/gen.py. Bounded by 12/30 atoms. Process configuration by shard (vlib/sut.py; recorded in replay files): plain / parse caches preheated beyond their size / warnings attributed to ahbicht raised as errors / logging fully enabled with every record rendered; one event loop per process or a new one per call; five process time zones; the hash seed is the shard number; namesakes of ahbicht's marshmallow schema classes are registered.",
+    "note": "Trusted: reference evaluator and tables in vlib/ref.py (C03 ties the real tables to the same laws exhaustively; C01 ties Lark's grouping to the AST), generator in vlib/gen.py. Bounded by 12/30 atoms. Process configuration by shard (vlib/sut.py; recorded in replay files): plain / parse caches preheated beyond their size / warnings attributed to ahbicht raised as errors / logging fully enabled with every record rendered; one event loop per process or a new one per call; five process time zones; the hash seed is the shard number; namesakes of ahbicht's marshmallow schema classes are registered. Every registry of evaluators / providers / resolvers that the harness builds (sut.configure) also holds one of each kind that names no EDIFACT format and no format version; these must never be asked.",
     "technique": "property-based testing against a reference evaluator (model-based oracle on the generating AST)",
 }
 LEVEL = "exploration"
